@@ -168,6 +168,23 @@ Proof.
 Qed.
 Print Assumptions C08_corner_loops_terminate_partial.
 
+(* "For each input polygon separately": several paths in one call (and one call after another on the same object -- Execute
+   clears op_container_, results_, edges_, start_locs_ after every path) give the concatenation, in input order, of what each path
+   gives alone.  Statement about the model; the check ties RectClip(rect, {p1..pk}) and two Execute calls on one RectClip64 object
+   to the per-path results of the implementation itself and of this model. *)
+Theorem C08_paths_app :
+  forall r ps qs,
+  (forall a b, rect_clip_paths r ps = Ok a -> rect_clip_paths r qs = Ok b -> rect_clip_paths r (ps ++ qs) = Ok (a ++ b))
+  /\ (forall c, rect_clip_paths r (ps ++ qs) = Ok c ->
+        exists a b, rect_clip_paths r ps = Ok a /\ rect_clip_paths r qs = Ok b /\ c = a ++ b).
+Proof. exact rect_clip_paths_app. Qed.
+Print Assumptions C08_paths_app.
+
+Theorem C08_paths_single :
+  forall r p o, rect_clip_t r p = Ok o -> rect_clip_paths r [p] = Ok (rect_clip r p).
+Proof. exact rect_clip_paths_single. Qed.
+Print Assumptions C08_paths_single.
+
 (* ================================================================ (C) the sample checker *)
 
 (* the multiplication-free shortcut of the distance test is exact *)
